@@ -497,6 +497,8 @@ def h_deepcopy(it, v, memo=None):
             return o
         if isinstance(x, tuple):
             return tuple(rec(y) for y in x)
+        if type(x).__name__ == "_NaN":
+            return x
         if hasattr(x, "_pyvc_deepcopy"):
             o = x._pyvc_deepcopy(rec)
             memo[id(x)] = o
